@@ -12,8 +12,9 @@ R07.4 (K2): TransportManager::on_connection_closed yields TransportEvent::Connec
        'true' result of PeerState::on_connection_closed.
 """
 import re
+import guards
 from paths import Inter
-from common import nested_closures, exit_desc, short, local_used, for_loops, loop_left_early
+from common import nested_closures, slice_locals, exit_desc, short, local_used, for_loops, loop_left_early
 
 EXPLANATION = ("All-paths structural obligations on the MIR CFG (pre-coroutine-transform) of the connection event loops "
                "and ProtocolSet report functions: every exit of each transport's connection loop is preceded by the close "
@@ -314,6 +315,32 @@ def _event_ends(fn, start):
     return set(fn.return_nodes()) | {start} | {sw[0] for sw in fn.discr_switches() if sw[2].endswith("__tokio_select_util::Out")}
 
 
+def r07_10(ctx, fx):
+    """the shutdown of one local protocol does not take a new connection away from the others: report_connection_established runs its
+    fan-out to completion and reports an error to its caller - which then discards the connection *without* a ConnectionClosed for
+    the protocols that were told - only when no protocol could be notified.  Every Err exit that is reachable from the fan-out lies
+    behind the edge `count of notified protocols == 0`."""
+    fn = ctx.fn(fx, "protocol::protocol_set::ProtocolSet::report_connection_established::{closure#0}", "R07.10")
+    if fn is None:
+        return
+    polls = fanout_polls(fn)
+    errs = [n for n, sh in fn.exits() if any(x.startswith("Err") for x in sh)]
+    after = fn.reach([p.node for p in polls], after=True) if polls else set()
+    errs = [n for n in errs if n in after]
+    ctx.anchor("R07.10", "report_connection_established: fan-out polls / Err exits after the fan-out", min(len(polls), len(errs)), 1, cfg=fx.cfg)
+
+    def is_counter(f, o):
+        for l in slice_locals(f, o):
+            ds = f.defs().get(l, [])
+            if f.locals[l] == "usize" and len(ds) >= 2 and any(k == "assign" and pl["rv"]["r"] == "use" and isinstance(f.const_value(pl["rv"]["o"]), int) and "k" in pl["rv"]["o"] for _, k, pl in ds):
+                return True
+        return False
+    zero = {(sw, lab) for sw, lab, rel, cn in guards.edge_facts(fn, is_counter, lambda f, o: "k" in o and f.const_value(o) == 0) if rel == "=="}
+    ok = bool(zero) and all(n not in fn.reach([fn.entry], cut=zero) for n in errs)
+    ctx.ob("R07.10", "report_connection_established/error-only-if-no-protocol-was-notified", ok, site=fn.site(errs[0]) if errs else fn.site(fn.entry), cfg=fx.cfg,
+           detail="`notified == 0` edges: %d; Err exits after the fan-out: %d" % (len(zero), len(errs)))
+
+
 def run(ctx):
     for cfg in ctx.configs():
         fx = ctx.facts(cfg)
@@ -325,6 +352,7 @@ def run(ctx):
             r07_4(ctx, fx)
             r07_6(ctx, fx)
             r07_7(ctx, fx)
+    r07_10(ctx, ctx.facts("default"))
     from common import check_no_dropped_futures
     check_no_dropped_futures(ctx, ctx.facts("default"), "R07.9", r"^protocol::protocol_set::ProtocolSet::\w+::\{closure#0\}(::\{closure#\d+\})*$", "ProtocolSet", 4)
     ctx.assume("cancellation of the connection task (executor shutdown) is not an exit")
